@@ -76,6 +76,10 @@ static void one(entry_t *e, int state, uint64_t c)
         for (int i = 0; i < e->nargs; i++) v[i] = e->a[i].kind == 'S' ? e->a[i].valid : (uint64_t) (uintptr_t) bufs[i];
         if (strstr(e->name, "xts")) v[3] = 16 + rng_below(&r, 49);
         if (strstr(e->name, "gcm") && e->nargs == 10) { v[4] = rng_below(&r, 65); }
+        /* zero-length messages take early exits of their own: the gate has to come first there too */
+        if (e->nargs >= 5 && e->a[4].kind == 'S' && (strstr(e->name, "cbc_enc") || strstr(e->name, "cbc_dec") || strstr(e->name, "gcm_enc") || strstr(e->name, "gcm_dec") || strstr(e->name, "ctx_mgr_submit")) && rng_below(&r, 4) == 0) {
+                v[4] = 0; out_count("fips_zero_length_calls", 1);
+        }
         if (ok_alg && strstr(e->name, "ctx_mgr_submit") && rng_below(&r, 2)) {
                 /* the call under test continues a job that was started while the module was operational:
                  * FIRST is accepted and drained, then UPDATE or LAST arrives in the state under test */
